@@ -22,6 +22,9 @@ Qed.
 From Fiano Require Import Base.BytesLemmas.
 From Coq Require Import ZifyBool ZifyNat.
 
+(* a changed kernel must make a tie lemma FAIL, not make a conversion check run for an hour *)
+Set Default Timeout 120.
+
 Lemma go_Read3Size_nvar_tie a b c : 0 <= a < 256 -> 0 <= b < 256 -> 0 <= c < 256 ->
   go_Read3Size [a; b; c] = le_dec [a; b; c].
 Proof.
